@@ -44,12 +44,14 @@ func init() {
 // ======================================================================================
 // child process: ONE configuration through the real loader, interpreter and runner, wired the way
 // cmd/cremexplorer/bootstrap.RunScenarioFromConfigFile wires them.  The observation is the exit status:
-//   0   Scenario.Run() returned nil; a line  C19RESULT {"files":[...]}  lists the output directory
-//   10  RetrieveConfigFromString returned an error          (stderr: C19LOADERR <text>)
-//   11  ConfigInterpreter.Errors() != nil                    (stderr: C19INTERPRETERR <text>)
-//   12  Scenario.Run() returned an error
-//   20 / 21  the loader / the interpreter PANICKED (recovered here only to tell the phase)
-//   2   Go's own exit status for a panic nobody recovered (a run goroutine) -- stderr carries the message
+//
+//	0   Scenario.Run() returned nil; a line  C19RESULT {"files":[...]}  lists the output directory
+//	10  RetrieveConfigFromString returned an error          (stderr: C19LOADERR <text>)
+//	11  ConfigInterpreter.Errors() != nil                    (stderr: C19INTERPRETERR <text>)
+//	12  Scenario.Run() returned an error
+//	20 / 21  the loader / the interpreter PANICKED (recovered here only to tell the phase)
+//	2   Go's own exit status for a panic nobody recovered (a run goroutine) -- stderr carries the message
+//
 // ======================================================================================
 func runC19child(args []string) {
 	tomlPath, cwd, outDir := args[0], args[1], args[2]
@@ -116,12 +118,12 @@ type c19Field struct {
 	Raw   string      `json:"-"`
 }
 
-func c19Absent() c19Field            { return c19Field{State: "absent"} }
-func c19Wrong(raw string) c19Field   { return c19Field{State: "wrong", Raw: raw} }
-func c19Str(s string) c19Field       { return c19Field{State: "value", V: s, Raw: strconv.Quote(s)} }
-func c19Int(n int64) c19Field        { return c19Field{State: "value", V: n, Raw: strconv.FormatInt(n, 10)} }
-func c19Bool(b bool) c19Field        { return c19Field{State: "value", V: b, Raw: strconv.FormatBool(b)} }
-func (f c19Field) present() bool     { return f.State != "absent" }
+func c19Absent() c19Field              { return c19Field{State: "absent"} }
+func c19Wrong(raw string) c19Field     { return c19Field{State: "wrong", Raw: raw} }
+func c19Str(s string) c19Field         { return c19Field{State: "value", V: s, Raw: strconv.Quote(s)} }
+func c19Int(n int64) c19Field          { return c19Field{State: "value", V: n, Raw: strconv.FormatInt(n, 10)} }
+func c19Bool(b bool) c19Field          { return c19Field{State: "value", V: b, Raw: strconv.FormatBool(b)} }
+func (f c19Field) present() bool       { return f.State != "absent" }
 func (f c19Field) str() (string, bool) { s, ok := f.V.(string); return s, ok && f.State == "value" }
 
 type c19Param struct {
@@ -143,23 +145,23 @@ func c19PS(k, s string) c19Param         { return c19Param{k, s, strconv.Quote(s
 func c19PB(k string, b bool) c19Param    { return c19Param{k, b, strconv.FormatBool(b)} }
 
 type c19Doc struct {
-	Id       int
-	Note     []string // the perturbations applied
-	Hazard   string   // the one hazard class put into the document ("none" if none)
-	SyntaxOk bool
-	Unknown  []string // unknown keys: "Scenario.Bogus", "[Bogus]" ...
-	MetaBad  bool     // MetaData.FilePath = 5 (a type error at a key outside the abstract record)
-	MetaOk   bool     // MetaData.FilePath = "x" (known key, overwritten by the loader)
-	UserDetail string // "", "table", "scalar"
+	Id         int
+	Note       []string // the perturbations applied
+	Hazard     string   // the one hazard class put into the document ("none" if none)
+	SyntaxOk   bool
+	Unknown    []string // unknown keys: "Scenario.Bogus", "[Bogus]" ...
+	MetaBad    bool     // MetaData.FilePath = 5 (a type error at a key outside the abstract record)
+	MetaOk     bool     // MetaData.FilePath = "x" (known key, overwritten by the loader)
+	UserDetail string   // "", "table", "scalar"
 
 	Name, RunNumber, MaxConcurrent, OutputPath, OutputType, OutputLevel, CpuProfile c19Field
-	ReportEvery, CheckInvariant, LoggerType, Formatter                           c19Field
-	LogDests      []c19Param // string values; a non-string value = wrong type
-	LogDestsState string     // absent | value | wrong | scalar
-	AnnealerType, EventNotifier, ModelType                                       c19Field
-	AnnealerParams, ModelParams []c19Param
-	AnnealerParamsScalar, ModelParamsScalar bool // `Parameters = 3`: ignored by the decoder
-	Runs int // how many times the child is executed
+	ReportEvery, CheckInvariant, LoggerType, Formatter                              c19Field
+	LogDests                                                                        []c19Param // string values; a non-string value = wrong type
+	LogDestsState                                                                   string     // absent | value | wrong | scalar
+	AnnealerType, EventNotifier, ModelType                                          c19Field
+	AnnealerParams, ModelParams                                                     []c19Param
+	AnnealerParamsScalar, ModelParamsScalar                                         bool // `Parameters = 3`: ignored by the decoder
+	Runs                                                                            int  // how many times the child is executed
 }
 
 func (d *c19Doc) render() string {
@@ -304,7 +306,7 @@ func (d *c19Doc) abstract() J {
 		"report_every": d.ReportEvery, "check_invariant": d.CheckInvariant, "logger_type": d.LoggerType, "formatter": d.Formatter,
 		"log_dests": ld, "annealer_type": d.AnnealerType, "event_notifier": d.EventNotifier,
 		"annealer_params": c19ParamsJ(d.AnnealerParams, d.AnnealerParamsScalar),
-		"model_type": d.ModelType, "model_params": c19ParamsJ(d.ModelParams, d.ModelParamsScalar),
+		"model_type":      d.ModelType, "model_params": c19ParamsJ(d.ModelParams, d.ModelParamsScalar),
 	}
 }
 
@@ -393,8 +395,15 @@ func (g *c19Gen) base(fam, mod int) *c19Doc {
 			d.AnnealerParams = append(d.AnnealerParams, c19PS("OptimisationDirection", []string{"Minimising", "Maximising"}[g.p.intn(2)]))
 		}
 	} else if g.p.chance(0.4) {
-		d.AnnealerParams = append(d.AnnealerParams, c19PI("InitialReturnToBaseStep", []int64{0, 1, 3, 20000}[g.p.intn(4)]),
+		d.AnnealerParams = append(d.AnnealerParams, c19PI("InitialReturnToBaseStep", []int64{0, 1, 2, 3, 20000}[g.p.intn(5)]),
 			c19PI("MinimumReturnToBaseRate", []int64{0, 1, 10}[g.p.intn(3)]), c19PB("CheckNonDominance", g.p.chance(0.5)))
+		// the legal end points of the two return-to-base fractions, with steps small enough that several returns
+		// to base happen inside a short run
+		if g.p.chance(0.6) {
+			d.AnnealerParams = append(d.AnnealerParams,
+				c19PF("ReturnToBaseIsolationFraction", []float64{0, 1e-6, 0.9, 1}[g.p.intn(4)]),
+				c19PF("ReturnToBaseAdjustmentFactor", []float64{0, 0.5, 0.95, 1}[g.p.intn(4)]))
+		}
 	}
 	if mod == 0 {
 		d.ModelParams = []c19Param{c19PS("DataSourcePath", c19DataOk)}
@@ -409,11 +418,11 @@ func (g *c19Gen) randomBase() *c19Doc {
 
 type c19Pert struct {
 	name   string
-	hazard string // "" = harmless (may be combined freely)
+	hazard string                          // "" = harmless (may be combined freely)
 	apply  func(g *c19Gen, d *c19Doc) bool // false = not applicable to this document
 }
 
-func c19IsCatchment(d *c19Doc) bool { s, _ := d.ModelType.str(); return s == "CatchmentModel" }
+func c19IsCatchment(d *c19Doc) bool   { s, _ := d.ModelType.str(); return s == "CatchmentModel" }
 func c19IsKirkpatrick(d *c19Doc) bool { s, _ := d.AnnealerType.str(); return s == "Kirkpatrick" }
 
 func c19Perturbations() []c19Pert {
@@ -514,7 +523,10 @@ func c19Perturbations() []c19Pert {
 	ap := func(name string, p c19Param) {
 		add(name, "", func(g *c19Gen, d *c19Doc) bool { d.AnnealerParams = c19SetParam(d.AnnealerParams, p); return true })
 	}
-	add("MaximumIterations absent", "", func(g *c19Gen, d *c19Doc) bool { d.AnnealerParams = c19DelParam(d.AnnealerParams, "MaximumIterations"); return true })
+	add("MaximumIterations absent", "", func(g *c19Gen, d *c19Doc) bool {
+		d.AnnealerParams = c19DelParam(d.AnnealerParams, "MaximumIterations")
+		return true
+	})
 	ap("MaximumIterations -1", c19PI("MaximumIterations", -1))
 	ap("MaximumIterations float", c19PF("MaximumIterations", 5))
 	ap("MaximumIterations string", c19PS("MaximumIterations", "10"))
@@ -644,7 +656,10 @@ func c19Perturbations() []c19Pert {
 	}
 	// the document as a whole
 	add("unknown key Scenario.Bogus", "", func(g *c19Gen, d *c19Doc) bool { d.Unknown = c19AddOnce(d.Unknown, "Scenario.Bogus"); return true })
-	add("unknown key Scenario.Reporting.Bogus", "", func(g *c19Gen, d *c19Doc) bool { d.Unknown = c19AddOnce(d.Unknown, "Scenario.Reporting.Bogus"); return true })
+	add("unknown key Scenario.Reporting.Bogus", "", func(g *c19Gen, d *c19Doc) bool {
+		d.Unknown = c19AddOnce(d.Unknown, "Scenario.Reporting.Bogus")
+		return true
+	})
 	add("unknown key Annealer.Bogus", "", func(g *c19Gen, d *c19Doc) bool { d.Unknown = c19AddOnce(d.Unknown, "Annealer.Bogus"); return true })
 	add("unknown key Model.Bogus", "", func(g *c19Gen, d *c19Doc) bool { d.Unknown = c19AddOnce(d.Unknown, "Model.Bogus"); return true })
 	add("unknown section", "", func(g *c19Gen, d *c19Doc) bool { d.Unknown = c19AddOnce(d.Unknown, "[Bogus]"); return true })
